@@ -31,6 +31,12 @@ RepeatMark(ts, ls, ss, p) == IF IsFirst(ts, p[1]) /\ IsFirst(ls, p[2]) /\ IsFirs
 \* extra field names of the generators, in a fixed order (values of different fields differ)
 ExtraPool == <<"q0.005", "q0.01", "Tmax", "e0", "e1", "e2", "q0.001", "q0.5">>
 ExtraOrderBefore(f) == {ExtraPool[k] : k \in 1..(IndexIn(ExtraPool, f) - 1)}
+\* the probability of not exceeding t when the file stores ensemble members only (g.derive : field name -> t): the fraction of the
+\* members present at the cell that are <= t, missing if none is present (Metrics!EnsProb)
+MemberNames == {"e0", "e1", "e2"}
+DerivedProb(stored, p, t) ==
+  LET ms == {f \in DOMAIN stored \cap MemberNames : ~IsNaN(stored[f][p])} IN
+  IF ms = {} THEN NaN ELSE Frac(Cardinality({f \in ms : Le(stored[f][p], R(t))}), Cardinality(ms))
 \* g = [ts, ls, ss, hasObs, mo, mf] ; j = owner (forecast offset) ; mo/mf = missing positions
 MkInput(g, j) ==
   [times |-> g.ts, leads |-> g.ls, locs |-> g.ss,
@@ -40,10 +46,15 @@ MkInput(g, j) ==
    \* extra fields (g.ex : field name -> missing positions, optional): values 3000 + 1000 ((7 k) mod 11) + 10000 j + Code for the k-th name
    \* of ExtraPool: all different, and the ensemble members e0, e1, e2 (9000, 5000, 12000) are NOT in increasing order
    extra |-> IF "ex" \in DOMAIN g
-             THEN [f \in DOMAIN g.ex |-> [p \in Positions(g.ts, g.ls, g.ss) |->
-                     IF p \in g.ex[f] THEN NaN
-                     ELSE R(3000 + 1000 * ((7 * IndexIn(ExtraPool, f)) % 11) + 10000 * j + Code(g.ts[p[1]], g.ls[p[2]], g.ss[p[3]]))]]
+             THEN LET stored == [f \in DOMAIN g.ex |-> [p \in Positions(g.ts, g.ls, g.ss) |->
+                                   IF p \in g.ex[f] THEN NaN
+                                   ELSE R(3000 + 1000 * ((7 * IndexIn(ExtraPool, f)) % 11) + 10000 * j + Code(g.ts[p[1]], g.ls[p[2]], g.ss[p[3]]))]]
+                  IN  IF "derive" \in DOMAIN g
+                      THEN stored @@ [n \in DOMAIN g.derive |-> [p \in Positions(g.ts, g.ls, g.ss) |-> DerivedProb(stored, p, g.derive[n])]]
+                      ELSE stored
              ELSE [f \in {} |-> <<>>],
+   \* fields the FILE does not store: the program has to derive them from the ensemble members (the materialiser writes no column for them)
+   derived |-> IF "derive" \in DOMAIN g THEN DOMAIN g.derive ELSE {},
    obs |-> [p \in Positions(g.ts, g.ls, g.ss) |->
               IF ~g.hasObs \/ p \in g.mo THEN NaN
               ELSE R(1000 + Code(g.ts[p[1]], g.ls[p[2]], g.ss[p[3]]) + RepeatMark(g.ts, g.ls, g.ss, p))],
@@ -336,6 +347,7 @@ TMenu == {<<R(12), "sum", "leadtime">>, <<R(24), "sum", "leadtime">>, <<R(25), "
           <<R(25), "abschange", "leadtime">>, <<R(37), "change", "leadtime">>, <<R(3), "abschange", "time">>}
 \* -T on ENSEMBLE MEMBERS (columns e0, e1, e2 as extra fields): every member series is pre-aggregated like obs and fcst, and the event
 \* probability of a threshold the files do not store is the fraction of the pre-aggregated members at or below it -- per input
+DeriveT == ("p16000" :> 16000 @@ "p26000" :> 26000)
 EnsIn(g) == [ts |-> g.ts, ls |-> g.ls, ss |-> g.ss, hasObs |-> g.hasObs, mo |-> {}, mf |-> g.mf, bump |-> 0, ex |-> ("e0" :> {} @@ "e1" :> {} @@ "e2" :> {})]
 UC15Ens(u) == {[inp |-> <<EnsIn(T15In1), EnsIn(T15In3)>>, clim |-> NoClimGen, opt |-> WithOpt(NoOptions, "T", t)]
                  : t \in {<<R(13), "mean", "leadtime">>, <<R(25), "mean", "leadtime">>, <<R(7), "mean", "time">>, <<R(13), "max", "leadtime">>}}
@@ -360,6 +372,12 @@ Universe(u) ==
     [] Family = "C18Axes"   -> UC18Axes(0)
     [] Family = "C01Extra" -> UCExtra(0)
     [] Family = "C18Ens" -> {[inp |-> <<EnsIn(In212(TRUE, {}, {})), EnsIn(In212(TRUE, {}, {<<2, 1, 1>>}))>>, clim |-> NoClimGen, opt |-> NoOptions]}
+    \* two files that store two ensemble members and no probabilities; the members are ALL missing at one cell of the first file and at another
+    \* cell of the second (one member only at a third): probabilities derived from the members are fields like any other -- a cell where
+    \* one file has none is no case for either file, whichever file is asked first (after seed C18-i)
+    [] Family = "C18Derived" -> {[inp |-> <<[In212(TRUE, {}, {}) EXCEPT !.bump = 0] @@ [ex |-> ("e0" :> {<<1, 1, 1>>} @@ "e1" :> {<<1, 1, 1>>}), derive |-> DeriveT],
+                                            In212(TRUE, {}, {}) @@ [ex |-> ("e0" :> {<<2, 1, 2>>, <<1, 1, 2>>} @@ "e1" :> {<<2, 1, 2>>}), derive |-> DeriveT]>>,
+                                   clim |-> NoClimGen, opt |-> NoOptions]}
     [] Family = "C18Extra" -> {g \in UCExtra(0) : g.inp[1].mo = {} /\ g.inp[2].mf = {}}
     [] Family = "C04"       -> UC04(0)
     [] Family = "C04Quick"  -> UC04Quick(0)
@@ -389,7 +407,7 @@ Universe(u) ==
 ---------------------------------------------------------------------------
 (* request menu: every field combination, input, and every slice of the listed axes *)
 FamKind == CASE Family \in {"C11", "C11All", "C11Sel", "C11Two"} -> "calendar"
-             [] Family \in {"C01Extra", "C18Extra", "C18Ens"} -> "extra"
+             [] Family \in {"C01Extra", "C18Extra", "C18Ens", "C18Derived"} -> "extra"
              [] Family \in {"C03K1", "C03K2", "C03K3", "C03ClimK1", "C03ClimK2"} -> "options"
              [] OTHER -> "plain"
 FieldSeqs == IF FamKind = "plain" THEN {<<"obs">>, <<"fcst">>, <<"obs", "fcst">>}
@@ -415,7 +433,8 @@ Flat(I, F) ==
          J(F[<<((n - 1) \div (ns * nl)) + 1, (((n - 1) \div ns) % nl) + 1, ((n - 1) % ns) + 1>>])]
 InputJson(I) == [times |-> I.times, leads |-> I.leads, locs |-> I.locs, lat |-> I.lat, lon |-> I.lon,
                  elev |-> I.elev, hasObs |-> I.hasObs, obs |-> Flat(I, I.obs), fcst |-> Flat(I, I.fcst),
-                 extra |-> [f \in ExtraNames(I) |-> Flat(I, I.extra[f])]]
+                 extra |-> [f \in ExtraNames(I) |-> Flat(I, I.extra[f])],
+                 derived |-> IF "derived" \in DOMAIN I THEN SetToSeq(I.derived) ELSE <<>>]
 OptJson(O) == [given |-> SetToSeq(O.given), t |-> SortInts(O.t), d |-> SortInts(O.d), tod |-> SortInts(O.tod),
                o |-> SortInts(O.o), l |-> SortInts(O.l), lx |-> SortInts(O.lx), latrange |-> O.latrange,
                lonrange |-> O.lonrange, elevrange |-> O.elevrange,
